@@ -9,14 +9,17 @@
 // interface shows (history.go: checkAgainst).
 //
 // Fresh instance inside one worker process: the group chain is a process-global
-// singleton over the worker's LevelDB.  Before every history all keys of the group
-// store and all rows of the side index are deleted through their public interfaces and
-// the unmodified initialisation is run again on the empty store (first-boot path).
-// The resulting store + memory image must be byte-identical to the one captured right
-// after boot, otherwise the worker stops with an infrastructure error.  Removing the
-// groups with the chain's own remove operation is NOT used for resetting (it is under
-// test, and on the current tree it leaves stale height keys behind).  As an additional
-// guard every replay of a stored prefix must reproduce the stored state key.
+// singleton over the worker's LevelDB.  Before every history the group store and the
+// side index are rewritten to their post-boot content through their public interfaces
+// and the two in-memory fields of the chain object are set to their post-boot values
+// (hook VerifGroupSetMemory); the complete image (every key/value under the store's
+// prefix read through an iterator, side index rows, count, last group) must then be
+// byte-identical to the image captured right after boot, otherwise the worker stops
+// with an infrastructure error (exit 2, not a verdict).  Once per worker the image is
+// also reproduced by "wipe everything + unmodified first-boot initialisation".
+// Removing the groups with the chain's own remove operation is NOT used for resetting:
+// it is under test, and on the current tree it leaves stale height keys behind.  As an
+// additional guard every replay of a stored prefix must reproduce the stored state key.
 package main
 
 import (
@@ -195,7 +198,7 @@ func run(c *fw.Ctx) {
 	if designated {
 		c.Note("depth", depth)
 		c.Note("alphabet", strings.Join(alphabet, " "))
-		c.Note("fresh_instance", "in-process: wipe group store + side index, re-run initialisation, byte-compare with post-boot image")
+		c.Note("fresh_instance", "in-process: group store + side index rewritten to the post-boot content, memory mirror reset, whole image byte-compared with the post-boot image before every history; validated once per worker against wipe + first-boot initialisation")
 	}
 }
 
@@ -246,7 +249,7 @@ func main() {
 		Assumptions: []string{
 			"accept-all consensus stub: CheckGroup passes for every group",
 			"restart = re-running initGroupChain over the same open LevelDB instance (VerifGroupReinit); crash points are a separate part",
-			"fresh instance = wipe of the group store prefix and the groupIndex table + unmodified initialisation, verified byte-identical to the post-boot image before every history",
+			"fresh instance = group store prefix, groupIndex table and the chain object's two fields (count, last group) restored to the post-boot image inside the worker process; byte-identity of the whole image is verified before every history and every prefix replay must reproduce the stored state key",
 			"model takes the accept/reject decision of valid and missing-parent additions from the implementation; accepted wrong-PreGroup / duplicate-id additions are violations",
 			"remove-last is applied only while a non-genesis group is listed (the fork switch never removes the genesis group)",
 			"sqlite side index: only 'operations succeed' and its row set as part of the state key",
@@ -256,7 +259,7 @@ func main() {
 			if tier == "thorough" {
 				return 17 * time.Minute
 			}
-			return 70 * time.Second
+			return 60 * time.Second
 		},
 	})
 }
